@@ -313,3 +313,16 @@ func (g *DenseGraph) BadGrowEdgesStale(extra int, set []int) {
 		g.Edges[old+v] = 1
 	}
 }
+
+// ROWS (c): the new row is the caller's list as given
+func (g *SparseGraph) BadAddVertexVerbatimRow(neighbours []int) {
+	row := make([]int, len(neighbours))
+	copy(row, neighbours)
+	g.NumberOfVertices++
+	g.NumberOfEdges += len(row)
+	for _, v := range row {
+		g.DegreeSequence[v]++
+	}
+	g.Neighbourhoods = append(g.Neighbourhoods, row)
+	g.DegreeSequence = append(g.DegreeSequence, len(row))
+}
